@@ -253,3 +253,30 @@ func satu32(v uint64) uint32 {
 	}
 	return ^uint32(0)
 }
+
+// ---- first line (C08) ----
+
+func flOK(p *PFLine, i int) bool {
+	return p.state <= flFIN && within(p.Method, i) && within(p.URI, i) && within(p.Version, i) &&
+		within(p.StatusCode, i) && within(p.Reason, i)
+}
+
+// isReplyStart: at least 14 bytes are available and they start with "SIP/2.0 " in any letter case.
+func isReplyStart(buf []byte, offs int) bool {
+	return len(buf)-offs >= 14 && cieq(buf[offs:offs+8], []byte("SIP/2.0 "))
+}
+
+func fieldIs(f PField, a, b int) bool { return int(f.Offs) == a && fend(f) == b }
+
+// tokenAt: buf[a:b) is a non-empty run of bytes that are not SP, HT, CR or LF
+func tokenAt(buf []byte, a, b int) bool {
+	return a < b && forall(a, b, func(k int) bool { return !isLWSc(buf[k]) })
+}
+
+// eolLen: length of the line terminator at position e (CRLF, lone CR or lone LF), given the byte after it is available
+func eolLen(buf []byte, e int) int {
+	if buf[e] == '\r' && buf[e+1] == '\n' {
+		return 2
+	}
+	return 1
+}
